@@ -1,3 +1,7 @@
 import Pithos.Util.S3Driver
+import Pithos.Util.C14Driver
 open Pithos.Proto Pithos.S3Driver
-def main : IO Unit := runDriver (judgeCase "C14")
+/-- C14: the S3-level judge (transitions preserve the object) on every case, and the routing
+tie + judge (lean/Pithos/Util/C14Driver.lean) on the cases that carry routing observations. -/
+def main : IO Unit :=
+  runDriver fun k lines => Pithos.C14Driver.merge (judgeCase "C14" k lines) (Pithos.C14Driver.judgeRouting k lines)
